@@ -304,6 +304,33 @@ def c07_explain(b: int, pi: int, op: int, ri: int) -> str:
     return f"{kind} path={PATHS[b][pi]} op={op} repl={REPL[ri]!r} -> {verdict(kind, doc)}"
 
 
+# ---------------------------------------------------------------- date spellings (structured text)
+DATE_Y, DATE_M, DATE_D = [2023, 2024, 0, 10000], [0, 1, 2, 9, 12, 13], [0, 1, 28, 29, 30, 31, 32]
+DATE_FORMS = ["{y:04d}-{m:02d}-{d:02d}", "{y}/{m}/{d}", "{y:04d}/{m:02d}/{d:02d}", "{y}-{m}-{d}", "{d:02d}.{m:02d}.{y:04d}"]
+
+
+def c07_dates(field: int, form: int, y: int, m: int, d: int) -> bool:
+    """
+    pre: 0 <= field < 2
+    pre: 0 <= form < len(DATE_FORMS)
+    pre: 0 <= y < len(DATE_Y) and 0 <= m < len(DATE_M) and 0 <= d < len(DATE_D)
+    post: _
+    """
+    from vlib.params import sel
+
+    fi, fo = sel(field, 2), sel(form, len(DATE_FORMS))
+    yy, mm, dd = DATE_Y[sel(y, len(DATE_Y))], DATE_M[sel(m, len(DATE_M))], DATE_D[sel(d, len(DATE_D))]
+    with concrete_section():
+        text = DATE_FORMS[fo].format(y=yy, m=mm, d=dd)
+        ok = True
+        for kind, base in (("rule", RULE), ("filter", FILT), ("corr", CORR)):
+            doc = mutate(base, (["date", "modified"][fi],), 1, text)
+            o, detail = verdict(kind, doc)
+            if not o and not kf_known(kind, detail):
+                ok = False
+    return fin(ok)
+
+
 # ---------------------------------------------------------------- scalar parsers on symbolic text
 SCALARS = [
     ("rule", ("id",)), ("rule", ("date",)), ("rule", ("modified",)), ("rule", ("status",)), ("rule", ("level",)),
@@ -347,7 +374,7 @@ def c07_strict_doc(kind: str, doc_repr: str) -> bool:
 
 OBLIGATIONS = (
     [Ob("c07_mutation", {"BASE": b}, 900) for b in range(6)]
-    + [Ob("c07_collection_order", {}, 900)]
+    + [Ob("c07_collection_order", {}, 900), Ob("c07_dates", {}, 900)]
     + [Ob("c07_scalar", {"FIELD": f, "LEN": 1 if f == 9 else (2 if f in (3, 4, 7, 10) else 3)}, 240) for f in range(len(SCALARS))]
     + [Ob("c07_scalar", {"FIELD": f, "LEN": 4}, 1200, tier="thorough", search=True) for f in range(len(SCALARS))]
     + [Ob("c07_mutation_pair", {"BASE": b}, 3000, tier="thorough", search=True) for b in range(3)]
